@@ -3,9 +3,9 @@ from harness import core
 from harness.props import sqlcommon as SC
 
 PID = 'C03'
-THEOREMS = ['PyDBML.C03.read_render_script', 'PyDBML.C03.read_render_table', 'PyDBML.C03.read_render_column', 'PyDBML.C03.same_ddl_same_content',
+THEOREMS = ['PyDBML.C03.read_render_script_all', 'PyDBML.C03.read_render_enum', 'PyDBML.C03.read_render_script', 'PyDBML.C03.read_render_table', 'PyDBML.C03.read_render_column', 'PyDBML.C03.same_ddl_same_content',
             'PyDBML.C03.script_structure', 'PyDBML.C03.column_pk_component', 'PyDBML.C03.default_component', 'PyDBML.C15.sql_column_ignores_props']
-MODULES = ['PyDBMLProofs.Props.C03', 'PyDBMLProofs.Props.C03Read']
+MODULES = ['PyDBMLProofs.Props.C03', 'PyDBMLProofs.Props.C03Read', 'PyDBMLProofs.Props.C04Read', 'PyDBMLProofs.Props.C03Script']
 
 
 def kf_replay(f):
@@ -101,6 +101,95 @@ def part_reader(ctx, drv):
         if got != exp:
             ctx.fail('the proved DDL reader does not read from db.sql what the model holds (C03Read.read_render_script)', case,
                      detail={'expected': exp, 'read': got}, sql=r[1])
+    part_script(ctx, drv)
+
+
+ENUM_ITEMS = ['new', 'done', 'in progress', "it's", 'a,', 'x', 'ÜBER', '1', 'with "quotes"']
+
+
+def gen_script_spec(rng):
+    """enums + tables + standalone references: the class of `read_render_script_all` (C03Script.lean)"""
+    from harness.props import c04
+    spec = c04.gen_fk_spec(rng)
+    enums, used = [], set()
+    for _ in range(rng.choice([0, 1, 1, 2])):
+        key = (rng.choice(['public', 'public', 's1', 'my schema']), rng.choice(NAME_POOL))
+        if key in used:
+            continue
+        used.add(key)
+        enums.append({'schema': key[0], 'name': key[1], 'items': rng.sample(ENUM_ITEMS, rng.choice([1, 2, 3, 5]))})
+    spec['enums'] = enums
+    # a reference equal to an earlier one is refused by the database: keep the first of each
+    seen, refs = set(), []
+    for r in spec['refs']:
+        k = (r['type'], r['t1'], tuple(r['col1']), r['t2'], tuple(r['col2']))
+        k2 = ({'>': '<', '<': '>', '-': '-'}[r['type']], r['t2'], tuple(r['col2']), r['t1'], tuple(r['col1']))
+        if k in seen or k2 in seen:
+            continue
+        seen.add(k)
+        refs.append(r)
+    spec['refs'] = refs
+    return spec
+
+
+def script_expect(spec):
+    from harness.props import c04
+    out = []
+    for e in spec['enums']:
+        q = '"%s"' % e['name'] if e['schema'] == 'public' else '"%s"."%s"' % (e['schema'], e['name'])
+        out.append({'kind': 'enum', 'qname': q, 'items': list(e['items'])})
+    out += [dict(kind='table', **t) for t in reader_expect(spec['tables'])]
+    out += [dict(kind='fk', **f) for f in c04.fk_expect(spec)]
+    return out
+
+
+def script_job(spec):
+    from pydbml import Database
+    from pydbml.classes import Table, Column, Expression, Enum, EnumItem, Reference
+    db = Database()
+    for e in spec['enums']:
+        db.add(Enum(e['name'], [EnumItem(i) for i in e['items']], schema=e['schema']))
+    tabs = []
+    for t in spec['tables']:
+        tb = Table(t['name'], schema=t['schema'])
+        for c in t['columns']:
+            d = c['default']
+            tb.add_column(Column(c['name'], c['type'], pk=c['pk'], autoinc=c['autoinc'], unique=c['unique'], not_null=c['not_null'],
+                                 default=Expression(d[1]) if isinstance(d, tuple) else d))
+        db.add(tb)
+        tabs.append(tb)
+    for r in spec['refs']:
+        try:
+            db.add(Reference(r['type'], [tabs[r['t1']].columns[i] for i in r['col1']], [tabs[r['t2']].columns[i] for i in r['col2']],
+                             name=r['name'], on_update=r['on_update'], on_delete=r['on_delete']))
+        except Exception as e:       # noqa
+            return ['refused', type(e).__name__]
+    try:
+        return ['ok', db.sql]
+    except Exception as e:           # noqa
+        return ['exc', type(e).__name__]
+
+
+def part_script(ctx, drv):
+    n = 300 if ctx.tier == 'quick' else 3000
+    specs = [gen_script_spec(ctx.rng) for _ in range(n)]
+    res = core.pmap(script_job, specs)
+    read = drv.ask_many({'op': 'readscript', 'text': r[1] if r[0] == 'ok' else ''} for r in res)
+    for spec, r, m in zip(specs, res, read):
+        ctx.case(core.h(spec), True)
+        ctx.count('script-reader:%s enums=%d refs=%d' % (r[0], len(spec['enums']), min(2, len(spec['refs']))))
+        case = {'op': 'readscript', 'spec': spec}
+        if r[0] == 'refused':
+            ctx.count('script-reader:refused ' + r[1])
+            continue
+        if r[0] != 'ok':
+            ctx.fail('db.sql of enums, plain tables and standalone references raises', case, detail=r[1])
+            continue
+        exp = script_expect(spec)
+        got = m.get('ok')
+        if got != exp:
+            ctx.fail('the proved script reader does not read from db.sql what the model holds (C03Script.read_render_script_all)', case,
+                     detail={'expected': exp, 'read': got}, sql=r[1])
 
 
 def main(tier, seed):
@@ -119,7 +208,8 @@ def main(tier, seed):
                     'UNIQUE / NOT NULL exactly when set, DEFAULT whenever set, one table-level key clause exactly for several key columns, '
                     'each table once and nothing else. The same reader (driver op readsql) is run on db.sql of the real code for '
                     'API-built tables of that class (all flag combinations, 20 default shapes, four pk layouts, three schemas, odd names) '
-                    'and must read exactly the generated content.',
+                    'and must read exactly the generated content; read_render_script_all (C03Script.lean) extends this to whole scripts of enums, '
+                    'tables and standalone references (driver op readscript on db.sql of API-built databases).',
         assumptions=['oracle runs on reader-hygienic specs (names without double quote, simple types/defaults)'],
         trusted_base=['Lean 4.33 kernel', 'hand-written model PyDBMLModel/RenderSql.lean tied by this correspondence',
                       'harness/ddl_reader.py', 'harness/sql_oracle.py',
@@ -130,6 +220,16 @@ def main(tier, seed):
 def replay(path):
     import json
     c = json.load(open(path)).get('case', {})
+    if c.get('op') == 'readscript':
+        from harness.driver import Driver
+        r = script_job(c['spec'])
+        print('impl sql:', r)
+        with Driver() as d:
+            got = d.ask({'op': 'readscript', 'text': r[1] if r[0] == 'ok' else ''})
+        exp = script_expect(c['spec'])
+        print('read    :', got.get('ok'))
+        print('expected:', exp)
+        return 0 if got.get('ok') == exp else 1
     if c.get('op') == 'readsql':
         from harness.driver import Driver
         r = reader_job(c['tables'])
